@@ -347,6 +347,13 @@ func (c *Conn) SetWriteDeadline(t time.Time) error {
 	return nil
 }
 
+// ClearWriteFault removes a pending write-failure fault.
+func (c *Conn) ClearWriteFault() {
+	c.mu.Lock()
+	c.FailWriteAt = -1
+	c.mu.Unlock()
+}
+
 // Snapshot returns a copy of everything the client wrote.
 func (c *Conn) Snapshot() []byte {
 	c.mu.Lock()
